@@ -655,12 +655,56 @@ def _nt(fs):
     return tuple(f for f in fs if f != "?ok")
 
 
-def prov(body, x, depth=0, _seen=None, via=(), suffix=()):
-    """Flow-insensitive backward slice of an operand or place to a set of Roots."""
+_END = 10 ** 9
+
+
+def _def_reaches(body, dbb, didx, site):
+    """can the definition at (dbb, didx) execute before the read at `site`?  (didx None: the block's terminator)"""
+    sbb, sidx = site
+    di = _END if didx is None else didx
+    if dbb == sbb and di < sidx:
+        return True
+    cache = body.__dict__.setdefault("_after_cache", {})
+    r = cache.get(dbb)
+    if r is None:
+        r = set()
+        for s in body.succs(dbb):
+            r |= body.reach_from(s)
+        cache[dbb] = r
+    return sbb in r
+
+
+def _def_killed(body, w, d, site):
+    """does every path from definition w = (bb, idx) to the read at `site` execute definition d first?  (block
+    granularity; answers False when unsure)"""
+    (wbb, wi), (dbb, di), (sbb, si) = w, d, site
+    if w == d:
+        return False
+    if dbb == sbb and di < si:
+        # d sits in the reading block just before the read: w survives only from in between
+        return not (wbb == sbb and di < wi < si)
+    if dbb == sbb:
+        return False
+    if wbb == dbb:
+        return wi < di and not (sbb == wbb and wi < si < di)
+    if wbb == sbb and wi < si:
+        return False
+    # from the end of w's block, the reading block is out of reach once d's block is taken away
+    r = set()
+    for s_ in body.succs(wbb):
+        if s_ != dbb:
+            r |= body.reach_from(s_, without_blocks=(dbb,))
+    return sbb not in r
+
+
+def prov(body, x, depth=0, _seen=None, via=(), suffix=(), site=None):
+    """Backward slice of an operand or place to a set of Roots.  Flow-insensitive at the operand it is asked about;
+    once the slice has followed a copy `_t = use(place)` it knows where `place` was read, and definitions that cannot
+    execute before that read (an in-place update `x.f = g(x.f)` further down) are not sources of it."""
     if _seen is None:
         _seen = set()
     if "k" in x and x["k"] in ("copy", "move"):
-        return prov(body, x["place"], depth, _seen, via, suffix)
+        return prov(body, x["place"], depth, _seen, via, suffix, site)
     if "k" in x and x["k"] == "const":
         if x.get("fn"):
             return {Root("fn", norm(x.get("fn_resolved") or x["fn"]), _nt(suffix), tuple(via), None)}
@@ -681,7 +725,7 @@ def prov(body, x, depth=0, _seen=None, via=(), suffix=()):
             return {Root("capture", "<env>", (), tuple(via), None)}
         nm = body.local_name(l) or ("arg%d" % l)
         return {Root("param", "%d:%s" % (l, nm), _nt(fields), tuple(via), None)}
-    key = (l, fields, tuple(via))
+    key = (l, fields, tuple(via), site)
     if key in _seen or depth > 40:
         return set()
     _seen.add(key)
@@ -692,12 +736,26 @@ def prov(body, x, depth=0, _seen=None, via=(), suffix=()):
     if sum(1 for d in defs if not d[3]["p"]) > 1 and "φ" not in via:
         # several reaching definitions (mutable variable): mark the slice as merged
         via = tuple(via) + ("φ",)
-    for d in defs:
+    live = []
+    if site is not None:
+        # definitions that can execute before the read, minus those overwritten on every path to it (`x = f()?; x.a =
+        # self.a; .. x.a ..` reads self.a, not f()'s field)
+        for d in defs:
+            if any(p["k"] == "deref" for p in d[3]["p"]):
+                continue
+            if _def_reaches(body, d[1], d[2], site):
+                live.append(d)
+        covering = [d for d in live if fields[:len(tuple(proj_fields(d[3])))] == tuple(proj_fields(d[3]))
+                    and not any(p["k"] not in ("field",) for p in d[3]["p"]) and d[0] != "setdiscr"]
+        pos = lambda d: (d[1], _END if d[2] is None else d[2])
+        live = [w for w in live if not any(_def_killed(body, pos(w), pos(d), site) for d in covering)]
+    for d in (defs if site is None else live):
         kind, bb, idx, dplace, payload = d
         dfields = tuple(proj_fields(dplace))
         has_deref = any(p["k"] == "deref" for p in dplace["p"])
         if has_deref:
             continue
+        here = (bb, _END if idx is None else idx)
         rest = fields
         if dfields:
             # partial definition `_l.f = ...`
@@ -720,24 +778,24 @@ def prov(body, x, depth=0, _seen=None, via=(), suffix=()):
                 continue
             if cd == "std::ops::Try::branch" and len(rest) >= 2 and rest[0] == "#Continue" and rest[1] == "0":
                 # `x?`: the Continue payload is the Ok/Some payload of x
-                out |= prov(body, t["args"][0], depth + 1, _seen, tuple(via) + ("?",), ("?ok",) + tuple(rest[2:]))
+                out |= prov(body, t["args"][0], depth + 1, _seen, tuple(via) + ("?",), ("?ok",) + tuple(rest[2:]), here)
                 continue
             if names & _transparent() and t["args"]:
                 short = cd.rsplit("::", 1)[-1]
-                out |= prov(body, t["args"][0], depth + 1, _seen, tuple(via) + (short,), rest)
+                out |= prov(body, t["args"][0], depth + 1, _seen, tuple(via) + (short,), rest, here)
             else:
                 out.add(Root("call", callee(t), _nt(rest), tuple(via), bb))
             continue
         rv = payload
         k = rv["k"]
         if k in ("use", "cast", "repeat"):
-            out |= prov(body, rv["op"], depth + 1, _seen, via, rest)
+            out |= prov(body, rv["op"], depth + 1, _seen, via, rest, here)
         elif k in ("ref", "copyforderef", "rawptr"):
-            out |= prov(body, rv["place"], depth + 1, _seen, via, rest)
+            out |= prov(body, rv["place"], depth + 1, _seen, via, rest, here)
         elif k == "aggregate" and rest and rest[0] == "?ok":
             # the value a `?` unwraps was built right here: Ok(x) / Some(x) hands x on, Err / None never gets past the `?`
             if rv.get("agg") == "adt" and rv.get("variant") in ("Ok", "Some") and rv["fields"]:
-                out |= prov(body, rv["fields"][0]["op"], depth + 1, _seen, via, rest[1:])
+                out |= prov(body, rv["fields"][0]["op"], depth + 1, _seen, via, rest[1:], here)
             elif rv.get("agg") == "adt" and rv.get("variant") in ("Err", "None"):
                 pass
             else:
@@ -756,7 +814,7 @@ def prov(body, x, depth=0, _seen=None, via=(), suffix=()):
                 hit = False
                 for f in rv["fields"]:
                     if f["name"] == f0:
-                        out |= prov(body, f["op"], depth + 1, _seen, via, r2)
+                        out |= prov(body, f["op"], depth + 1, _seen, via, r2, here)
                         hit = True
                 if not hit:
                     out.add(Root("agg", agg_name(rv), _nt(rest), tuple(via), bb))
@@ -764,9 +822,9 @@ def prov(body, x, depth=0, _seen=None, via=(), suffix=()):
                 out.add(Root("agg", agg_name(rv), _nt(rest), tuple(via), bb))
         elif k == "unop":
             if rv["op"] == "Neg":
-                out |= prov(body, rv["x"], depth + 1, _seen, tuple(via) + ("neg",), rest)
+                out |= prov(body, rv["x"], depth + 1, _seen, tuple(via) + ("neg",), rest, here)
             elif rv["op"] == "Not":
-                out |= prov(body, rv["x"], depth + 1, _seen, tuple(via) + ("not",), rest)
+                out |= prov(body, rv["x"], depth + 1, _seen, tuple(via) + ("not",), rest, here)
             else:
                 out.add(Root("op", rv["op"], _nt(rest), tuple(via), bb))
         elif k == "binop":
@@ -828,11 +886,12 @@ def describe_switch(body, bb):
     variants = None
     seen = 0
     pos = len(body.blocks[bb]["stmts"])
+    rsite = (bb, _END)          # where the operand under consideration is read
     while True:
         seen += 1
         l = _operand_local(o)
         if l is None or seen > 8:
-            kind, subject = ("bool" if t["dty"] == "bool" else "int"), frozenset(prov(body, o))
+            kind, subject = ("bool" if t["dty"] == "bool" else "int"), frozenset(prov(body, o, site=rsite))
             break
         d = single_def(body, l)
         if d is None and pos is not None:
@@ -847,21 +906,22 @@ def describe_switch(body, bb):
         elif d is not None:
             pos = None if d[1] != bb else (d[2] if d[0] == "assign" else None)
         if d is None:
-            kind, subject = ("bool" if t["dty"] == "bool" else "int"), frozenset(prov(body, o))
+            kind, subject = ("bool" if t["dty"] == "bool" else "int"), frozenset(prov(body, o, site=rsite))
             break
         dk, dbb, didx, dplace, payload = d
+        rsite = (dbb, _END if didx is None else didx)
         if dk == "call":
             cn = callee(payload)
             kind = "call"
-            subject = (cn, tuple(frozenset(prov(body, a)) for a in payload["args"]), dbb)
+            subject = (cn, tuple(frozenset(prov(body, a, site=rsite)) for a in payload["args"]), dbb)
             break
         if dk != "assign":
-            kind, subject = "int", frozenset(prov(body, o))
+            kind, subject = "int", frozenset(prov(body, o, site=rsite))
             break
         rv = payload
         if rv["k"] == "discriminant":
             kind = "variant"
-            subject = frozenset(prov(body, rv["place"]))
+            subject = frozenset(prov(body, rv["place"], site=rsite))
             variants = rv.get("variants")
             break
         if rv["k"] == "unop" and rv["op"] == "Not":
@@ -876,10 +936,10 @@ def describe_switch(body, bb):
             continue
         if rv["k"] == "binop" and rv["op"] in ("Lt", "Le", "Gt", "Ge", "Eq", "Ne"):
             kind = "cmp"
-            subject = (rv["op"], frozenset(prov(body, rv["l"])), frozenset(prov(body, rv["r"])),
+            subject = (rv["op"], frozenset(prov(body, rv["l"], site=rsite)), frozenset(prov(body, rv["r"], site=rsite)),
                        (rv["l"], rv["r"]))
             break
-        kind, subject = ("bool" if t["dty"] == "bool" else "int"), frozenset(prov(body, o))
+        kind, subject = ("bool" if t["dty"] == "bool" else "int"), frozenset(prov(body, o, site=rsite))
         break
     labels = {}
     listed = []
@@ -1116,7 +1176,7 @@ def enumerate_paths(body, limit=4000, max_visits=1, start=0):
                 # switch, so it cannot be described flow-insensitively)
                 ct = body.blocks[known[1]]["term"]
                 kind = "call"
-                subject = (callee(ct), tuple(frozenset(prov(body, a)) for a in ct["args"]), known[1])
+                subject = (callee(ct), tuple(frozenset(prov(body, a, site=(known[1], _END))) for a in ct["args"]), known[1])
                 labels = {}
                 for v, x in t["targets"]:
                     labels.setdefault(x, []).append((v != "0") == known[2])
